@@ -989,6 +989,9 @@ func (c *PointerConverter) To(obj Object) (interface{}, error) {
 	if err != nil {
 		return nil, err
 	}
+	if v == nil {
+		return nil, errz.TypeErrorf("type error: cannot take a pointer to the value of %s", obj.Type())
+	}
 	vp := reflect.New(reflect.TypeOf(v))
 	vp.Elem().Set(reflect.ValueOf(v))
 	return vp.Interface(), nil
